@@ -283,12 +283,15 @@ func vh13Reads(o *vhOut, id *int, s *vh13S, counts []uint32, offs []uint64) {
 		rec["stalls"] = s.stalls
 		o.Emit(rec)
 	}
-	for _, cnt := range counts {
+	for ci, cnt := range counts {
 		for _, off := range offs {
 			if !s.ok {
 				return
 			}
 			if s.fs.xattr != nil {
+				if off > 1<<40 && ci%3 != 0 && cnt != 2 { // wrapping offsets: a third of the counts
+					continue
+				}
 				body := append(vhLE32(3), vhLE64(off)...)
 				body = append(body, vhLE32(cnt)...)
 				typ, rb, size, ek := s.do(byte(msgTread), body)
@@ -388,9 +391,9 @@ func vh13Server(o *vhOut, thorough bool) {
 					continue
 				}
 				counts := append(vh13Counts(eff), uint32(vl), uint32(vl)+1, uint32(vl)-7, 2)
-				offs := []uint64{0, 7, uint64(vl), uint64(vl) + 1, 1<<64 - 1, 1<<64 - 2, 1<<64 - uint64(eff), 1<<63 + 3, 1<<32 + 1}
+				offs := []uint64{0, 7, uint64(vl), uint64(vl) + 1, 1<<64 - 1, 1<<64 - 2, ^uint64(0) - uint64(eff) + 1, 1<<63 + 3, 1<<32 + 1}
 				if !thorough {
-					offs = []uint64{0, 7, uint64(vl) + 1, 1<<64 - 1, 1<<64 - 2, 1<<64 - uint64(eff)}
+					offs = []uint64{0, 7, uint64(vl) + 1, 1<<64 - 1, 1<<64 - 2, ^uint64(0) - uint64(eff) + 1}
 				}
 				vh13Run(o, &id, &vh13FS{xattr: make([]byte, vl)}, one(req), counts, offs)
 			}
